@@ -39,12 +39,11 @@ func NewSeckeyFromRand(seed base.Rand) *Seckey {
 }
 
 func NewSeckeyFromBigInt(b *big.Int) *Seckey {
-	nb := &big.Int{}
-	nb.Set(b)
-	b.Mod(nb, curveOrder)
+	// reduce a copy: the caller's big.Int must not be modified
+	nb := new(big.Int).Mod(b, curveOrder)
 
 	sec := new(Seckey)
-	sec.value.setBigInt(b)
+	sec.value.setBigInt(nb)
 
 	return sec
 }
